@@ -87,7 +87,7 @@ func handleAction() cli.ActionFunc {
 		predefinedTopics := topics.PredefinedTopics{}
 
 		if c.IsSet(PredefinedTopicsFileFlag) {
-			v, err := topics.ParsePredefinedTopicOptions(c.Path(PredefinedTopicsFileFlag))
+			v, err := topics.ReadPredefinedTopicsFile(c.Path(PredefinedTopicsFileFlag))
 			if err != nil {
 				return err
 			}
